@@ -285,13 +285,42 @@ var faultLike = []string{
 	"SELECT `a\nb` FROM t",
 	"SELECT $$dollar quoted$$, $tag$ x $tag$ FROM t",
 	"SELECT 'bob' AS name, \"Quoted Col\" FROM \"users\" WHERE city = 'Z\u00fcrich'",
+	// rejected at the very first byte of a multi-line input (nothing consumed, line table already built)
+	"\ufeffSELECT a\nFROM t\nWHERE x = 1\n",
+	"^\nSELECT\n  1\nFROM t",
+	"\\\nSELECT 1\nFROM t\n",
+	"'unterminated\nacross\nseveral\nlines",
+	"`open\nacross\nlines",
+	"}\n\n\nSELECT 1",
+}
+
+// LongToken returns a short statement around ONE token of about size bytes: a
+// block comment (with an apostrophe inside), a line comment, a string literal,
+// a dollar-quoted body or a quoted identifier. Work inside one token is not
+// visible in token counts.
+func LongToken(kind, size int) string {
+	fill := strings.Repeat("lorem ipsum, it's 42 * (x) ", size/27+1)[:size]
+	switch kind % 5 {
+	case 0:
+		return "SELECT a /* " + fill + " */ FROM t WHERE a = 1"
+	case 1:
+		return "SELECT a -- " + strings.ReplaceAll(fill, "\n", " ") + "\nFROM t"
+	case 2:
+		return "SELECT '" + strings.ReplaceAll(fill, "'", "''") + "' AS s FROM t"
+	case 3:
+		return "SELECT $body$" + fill + "$body$ FROM t"
+	default:
+		return "SELECT \"" + strings.ReplaceAll(fill, "\"", "") + "\" FROM t"
+	}
 }
 
 // FaultLike returns a fault-like input: fixed list, deep nesting around the
 // recursion limit, long inputs around the tokenizer's poll interval, or a
 // single-token corruption of a generated/corpus statement.
 func (g G) FaultLike() string {
-	switch g.n(6, "fk") {
+	switch g.n(7, "fk") {
+	case 6:
+		return LongToken(g.n(5, "ltkind"), []int{600, 4100, 4100, 9000, 20000}[g.n(5, "ltsize")])
 	case 0, 1:
 		return faultLike[g.n(len(faultLike), "fl")]
 	case 2:
